@@ -16,7 +16,7 @@ META = {
     "outside": "payloads longer than 16 bytes for the stub clauses (the stub path does not look at them)",
     "assumptions": ["MSM numbers pinned in spec/msm.json: 1071-77,1081-87,...,1131-37; reserved numbers inside 1070-1229 may report either"],
 }
-WALL_BUDGET = {"quick": 900, "thorough": 3600}
+WALL_BUDGET = {"quick": 480, "thorough": 3600}
 
 
 def jobs(tier, seed):
@@ -24,6 +24,7 @@ def jobs(tier, seed):
     out = [('num', hi, L) for hi in range(16) for L in lens]
     out += [('sub', L) for L in ((3, 5) if tier == 'quick' else (3, 5, 16))]
     out += [('defined', i) for i in range(8)]
+    out += [('hist', i) for i in range(4)]
     return out
 
 
@@ -144,6 +145,44 @@ def run_job(spec):
                 return RTCMMessage(payload=d.build(eng))
             for path in eng.explore(fn):
                 check_path(eng, path, d.p, d.L, res, defined, msmset)
+            res.absorb_engine(eng)
+        return res
+    if spec[0] == 'hist':
+        # a message number WITHOUT definition parsed first (same 12-bit number where the family allows it: an undefined 4076 sub-type),
+        # then an implemented type: identity, DF002 and decoding must be what they are from the pristine state
+        ids = [i for i in structs.all_identities() if structs.wellformed(i)][spec[1]::4]
+        for ident in ids:
+            k = structs.kind_of(ident)
+            st = dict(nsat=1, nsig=1, cellmask='ones', maskmode='value') if k == 'msm' else dict(harm=(0, 1, 1)) if k == 'harm' else \
+                dict(flags=5) if k == 'flags' else dict(mode=('uniform', 1))
+            d = msgdrv.Directed(ident, structs.chooser(st), spare=1)
+            eng = sym.Engine(max_paths=16, conc_limit=4)
+            H = {}
+
+            def fn():
+                u = sym.symbytes("u", 6)
+                H['u'] = u
+                if ident.startswith("4076"):
+                    eng.assume(msgdrv.fterm(u.term(), 48, 0, 12) == 4076)
+                    eng.assume(msgdrv.fterm(u.term(), 48, 15, 8) == 250)
+                else:
+                    eng.assume(msgdrv.fterm(u.term(), 48, 0, 12) == (int(ident[:4]) // 10 * 10 if 1070 <= int(ident[:4]) <= 1229 else 4072))
+                try:
+                    RTCMMessage(payload=u)
+                except Exception:   # noqa
+                    pass
+                return RTCMMessage(payload=d.build(eng))
+            for path in eng.explore(fn):
+                n0 = len(res['cex'])
+                check_path(eng, path, d.p, d.L, res, defined, msmset)
+                if path.kind == 'ret' and len(msgdrv.public_attrs(path.value)) < 3:
+                    res['obligations'] += 1
+                    res['refuted'] += 1
+                    cex(eng, d.p, res, ['fields', 'decodable'], f"{ident} decoded as a stub after a message without definition")
+                for c in res['cex'][n0:]:
+                    if eng.check3() == 'sat':
+                        c['history'] = [bytes(eng.solver.model().eval(sym.byte_term(e), model_completion=True).as_long() for e in H['u'].e).hex()]
+                        c['checks'] = list(set(c['checks']) | {'fields', 'decodable'})
             res.absorb_engine(eng)
         return res
     if spec[0] == 'num':
